@@ -140,8 +140,10 @@ fcache_get_mmap(struct fcache *fc, struct fcache_entry *fce,
 	size_t off;
 
 	blkpos = pos & ~(off_t)(fc->pgsz - 1);
-	if (blkpos < 0 || blkpos >= fc->info[fidx].filesz)
+	if (blkpos < 0)
 		return KDUMP_ERR_NODATA;
+	if (blkpos >= fc->info[fidx].filesz)
+		return KDUMP_ERR_EOF;
 
 	/* Pages that lie wholly beyond EOF must not be handed out:
 	 * touching them raises SIGBUS. The EOF page itself is
